@@ -117,6 +117,13 @@ fn run<const N: usize>(s: &mut Summary, v: &V) {
     let mut obs = |o: &mut Obj<N>, s: &mut Summary, tag: &str, exp: &V| {
         let (kind, win) = match o {
             Obj::C(c) => {
+                // an empty consumer yields None from both ends (and stays empty)
+                if exp["win"].as_array().unwrap().is_empty() {
+                    let f = c.next();
+                    let b = c.next_back();
+                    s.monitor(&format!("{tag}: ArrayConsumer::next on empty"), f.is_none() && b.is_none(), "None from an empty consumer");
+                    for x in [f, b].into_iter().flatten() { caller.push(ManuallyDrop::into_inner(x)); }
+                }
                 let a = ids(c.as_slice(), &mut intact);
                 let b = ids(c.as_mut_slice(), &mut intact);
                 s.check(&format!("{tag}: ArrayConsumer::as_mut_slice"), b, &exp["win"]);
